@@ -935,3 +935,69 @@ def atomic_sites(repo_rel, function=None):
         args.append(cur.strip())
         sites.append((m.group(1), args))
     return sites
+
+
+def explore_schedules(harness_cmd, conf, bound, max_runs=20000, batch=400, env=None, timeout=600):
+    """Systematic, preemption-bounded exploration (CHESS-style) of the REAL code under the
+    deterministic scheduler. A run is `sched prefix <tokens>`: the prefix is replayed, then
+    the scheduler continues non-preemptively and reports, for every step, which threads were
+    candidates. Every alternative choice at every step becomes a new prefix, as long as the
+    number of preemptions (switching away from a thread that could continue) stays <= bound.
+    Yields (schedule_tokens, output_lines) for every distinct complete schedule; returns when
+    the space is exhausted (generator's .exhausted = True) or max_runs is reached."""
+    class Gen:
+        exhausted = False
+        runs = 0
+
+        def __iter__(self):
+            frontier = [([], 0)]           # (prefix tokens, preemptions used in the prefix)
+            seen_prefix = {()}
+            seen_sched = set()
+            while frontier and self.runs < max_runs:
+                cur, frontier = frontier[:batch], frontier[batch:]
+                cases = [conf + ["sched prefix " + " ".join(p)] + ["run"] for p, _ in cur]
+                res = run_cases(harness_cmd, cases, timeout=timeout, env=env)
+                self.runs += len(cur)
+                for (prefix, used), r in zip(cur, res):
+                    out = r["out"]
+                    sched, masks = None, None
+                    for l in out:
+                        if l.startswith("schedule "):
+                            sched = l.split()[1:]
+                        elif l.startswith("schedule"):
+                            sched = []
+                        elif l.startswith("#enabled"):
+                            masks = [int(x, 16) for x in l.split()[1:]]
+                    if r["crash"] or sched is None:
+                        yield prefix, out + ["crash: " + str(r["crash"])[:500]]
+                        continue
+                    key = tuple(sched)
+                    if key not in seen_sched:
+                        seen_sched.add(key)
+                        yield sched, out
+                    if masks is None:
+                        continue
+                    tids = [int(t.rstrip("!~")) for t in sched]
+                    # branch only at positions after the forced prefix
+                    for i in range(len(prefix), min(len(tids), len(masks))):
+                        m = masks[i]
+                        prev = tids[i - 1] if i > 0 else None
+                        # preemptions used by the default continuation up to position i
+                        for alt in range(32):
+                            if not (m >> alt) & 1 or alt == tids[i]:
+                                continue
+                            cost = used
+                            # cost of the default continuation between len(prefix) and i is 0 by
+                            # construction (non-preemptive); choosing `alt` is a preemption iff
+                            # the previous thread could have continued
+                            if prev is not None and (m >> prev) & 1 and alt != prev:
+                                cost += 1
+                            if cost > bound:
+                                continue
+                            newp = tuple(sched[:i]) + (str(alt),)
+                            if newp in seen_prefix:
+                                continue
+                            seen_prefix.add(newp)
+                            frontier.append((list(newp), cost))
+            self.exhausted = not frontier
+    return Gen()
